@@ -578,7 +578,8 @@ func XBCheckSeeker(c *Ctx, ob string, fn *ssa.Function) string {
 							sizeish = true
 						}
 						if u, ok := r.(*ssa.UnOp); ok && u.Op == token.MUL {
-							if f, _ := FieldOf(u.X); f != nil && (f.Name() == "size" || f.Name() == "Size") {
+							// the field an exported Size() method of the same type returns
+							if f, base := FieldOf(u.X); f != nil && xbIsSizeField(R.Prog, f, base) {
 								sizeish = true
 							}
 						}
@@ -871,4 +872,29 @@ func XBDerivedFromOffset(fn *ssa.Function, v ssa.Value) bool {
 		return false
 	}
 	return xbDerivedFrom(v, Aliases(ssa.Value(fn.Params[1])), 0)
+}
+
+// xbIsSizeField: f is the field that a method named Size of base's type returns (directly or converted).
+func xbIsSizeField(prog *ssa.Program, f *types.Var, base ssa.Value) bool {
+	t := base.Type()
+	ms := prog.MethodSets.MethodSet(t)
+	for i := 0; i < ms.Len(); i++ {
+		if ms.At(i).Obj().Name() != "Size" {
+			continue
+		}
+		m := prog.MethodValue(ms.At(i))
+		if m == nil || m.Blocks == nil {
+			continue
+		}
+		for _, r := range Returns(m) {
+			for _, res := range r.Results {
+				if u, ok := XBStripConv(res).(*ssa.UnOp); ok && u.Op == token.MUL {
+					if g, _ := FieldOf(u.X); g == f {
+						return true
+					}
+				}
+			}
+		}
+	}
+	return false
 }
